@@ -1,5 +1,7 @@
 /* C16: I/O tasks move exactly the bytes, in order, and report EOF, errors and timeouts. */
 #define _GNU_SOURCE 1
+#include <sys/mman.h>
+#include <sys/stat.h>
 #include <stdio.h>
 #include <stdlib.h>
 #include <string.h>
@@ -760,10 +762,97 @@ static void op_ctl(const item_t *it, const char *k) {
 	}
 }
 
+
+/* ------------------------------------------------------------------ file tasks (tp_task_rw_handler: pread / pwrite)
+ * Linux epoll refuses regular files, so the read/write variant of a task can only run as "first I/O without
+ * scheduling": tp_task_start_ex(0, ...) transfers the window at the task's file offset and calls back. One op does
+ * the whole thing on the task's pool thread against a memfd with known contents, with error and short-transfer
+ * faults on pread()/pwrite(). */
+static struct { int ncb, error; uint32_t eof; size_t transfered, off, used, tr; tp_task_p task; io_buf_p buf; } FI;
+static inline uint8_t fpay(size_t i) { return (uint8_t)(i * 131u + (i >> 8) * 17u + 9u); }
+static int file_cb(tp_task_p tptask, int error, io_buf_p buf, uint32_t eof, size_t transfered_size, void *udata) {
+	(void)udata;
+	FI.ncb++; FI.error = error; FI.eof = eof; FI.transfered = transfered_size; FI.task = tptask; FI.buf = buf;
+	if (buf) { FI.off = buf->offset; FI.used = buf->used; FI.tr = buf->transfer_size; }
+	return TP_TASK_CB_NONE;
+}
+static void op_fileio(const item_t *it, int opidx) {
+	static uint8_t mem[CANARY + BUF_MAX + CANARY], fimg[2048], fnow[2048 + BUF_MAX + 64];
+	int wr = (int)item_get(it, "wr", 0), fd, rc, thr = (int)item_get(it, "thr", 0) % PW->n;
+	size_t flen = (size_t)item_get(it, "flen", 100) % 2048, foff = (size_t)item_get(it, "foff", 0);
+	size_t size = (size_t)item_get(it, "size", 256), off = (size_t)item_get(it, "off", 0), tr = (size_t)item_get(it, "tr", 0), used, expect, avail;
+	uint32_t tflags = (uint32_t)item_get(it, "flags", 0);
+	io_buf_t buf;
+	tp_task_p task = NULL;
+	tpt_p tpt = tp_thread_get(PW->tp, (size_t)thr);
+	if (size < 8) size = 8; if (size > BUF_MAX) size = BUF_MAX;
+	if (off >= size) off = size - 1;
+	if (tr == 0 || off + tr > size) tr = size - off;
+	fd = memfd_create("c16file", 0);
+	if (fd < 0) return;
+	sim_fd_note_harness(fd);
+	for (size_t i = 0; i < flen; i++) fimg[i] = wr ? 0xEE : fpay(i);
+	if (flen && (ssize_t)flen != pwrite(fd, fimg, flen, 0)) { close(fd); sim_fd_forget(fd); return; }
+	memset(mem, 0xC3, sizeof(mem)); memset(mem + CANARY, 0x3C, size);
+	memset(&buf, 0, sizeof(buf));
+	buf.data = mem + CANARY; buf.size = size; buf.offset = off; buf.transfer_size = tr; buf.used = wr ? off + tr : off;
+	if (wr) for (size_t i = 0; i < tr; i++) buf.data[off + i] = fpay(1000 + i);
+	used = buf.used;
+	memset(&FI, 0, sizeof(FI));
+	sim_probe(wr ? "c16.file_write_task" : "c16.file_read_task");
+	sim_mark_interesting();
+	rc = tp_task_create(tpt, (uintptr_t)fd, tp_task_rw_handler, tflags, NULL, &task);
+	if (0 != rc) { sim_violation("io-start-failed", "file task: tp_task_create failed with %d", rc); close(fd); sim_fd_forget(fd); return; }
+	rc = tp_task_start_ex(0, task, wr ? TP_EV_WRITE : TP_EV_READ, 0, 0, (off_t)foff, &buf, file_cb);
+	sim_log("fileio wr=%d flen=%zu foff=%zu size=%zu off=%zu tr=%zu flags=%x -> rc=%d ncb=%d error=%d eof=%x transfered=%zu", wr, flen, foff, size, off, tr, tflags, rc, FI.ncb, FI.error, FI.eof, FI.transfered);
+	avail = (foff < flen) ? flen - foff : 0;
+	expect = wr ? tr : (tr < avail ? tr : avail);
+	do {
+		int faulted = sim_fault_fired_op(opidx) - sim_fault_fired_site(wr ? "pwrite.short" : "pread.short");
+		if (0 != rc) { sim_violation("io-start-failed", "file task: start without scheduling returned %d (the callback asked for nothing further)", rc); break; }
+		if (FI.ncb != 1) { sim_violation("io-callback-count", "file task: %d callbacks for one direct transfer", FI.ncb); break; }
+		if (FI.task != task || FI.buf != &buf) { sim_violation("io-bad-arg", "file task: callback received another task/buffer"); break; }
+		for (size_t i = 0; i < sizeof(mem); i++) if ((i < CANARY || i >= CANARY + size) && mem[i] != 0xC3) { sim_violation("io-buffer-overrun", "file task: bytes outside the caller's buffer were written"); break; }
+		if (sim_violated()) break;
+		if (FI.off != off + FI.transfered || FI.tr != tr - FI.transfered || FI.transfered > tr) { sim_violation("io-count", "file task: callback reports %zu transferred byte(s), buffer offset moved %zu -> %zu, remaining %zu of %zu", FI.transfered, off, FI.off, FI.tr, tr); break; }
+		if (FI.used != (wr ? used : used + FI.transfered)) { sim_violation("io-cursor", "file task: fill mark %zu, expected %zu", FI.used, wr ? used : used + FI.transfered); break; }
+		if ((size_t)tp_task_offset_get(task) != foff + FI.transfered) { sim_violation("io-count", "file task: file offset %lld after %zu byte(s) from offset %zu", (long long)tp_task_offset_get(task), FI.transfered, foff); break; }
+		if (!faulted && 0 != FI.error) { sim_violation("io-error", "file task: error %d without an injected fault", FI.error); break; }
+		if (faulted && 0 == FI.error) { sim_violation("io-error", "file task: the injected I/O error was not reported"); break; }
+		if (!wr) {
+			for (size_t i = 0; i < size; i++) {
+				uint8_t want = (i >= off && i < off + FI.transfered) ? fpay(foff + i - off) : 0x3C;
+				if (buf.data[i] != want) { sim_violation((i >= off && i < off + FI.transfered) ? "io-data" : "io-window-overrun", "file task: buffer byte %zu is %02x, expected %02x (window [%zu,+%zu), %zu read from file offset %zu)", i, buf.data[i], want, off, tr, FI.transfered, foff); break; }
+			}
+			if (sim_violated()) break;
+			if (!faulted) {
+				if (tflags & TP_TASK_F_CB_AFTER_EVERY_READ) { if (FI.transfered > expect || (expect && !FI.transfered)) { sim_violation("io-count", "file task: %zu byte(s) read, the file holds %zu from offset %zu", FI.transfered, expect, foff); break; } }
+				else if (FI.transfered != expect) { sim_violation("io-count", "file task: %zu byte(s) read, expected %zu (window %zu, file %zu from offset %zu)", FI.transfered, expect, tr, avail, foff); break; }
+				if (FI.transfered == expect && expect < tr && !(tflags & TP_TASK_F_CB_AFTER_EVERY_READ) && !(FI.eof & TP_TASK_IOF_F_BUF)) { sim_violation("io-missed-eof", "file task: end of file reached after %zu of %zu byte(s) but not reported", expect, tr); break; }
+				if (expect == tr && FI.eof) { sim_violation("io-false-eof", "file task: end of file reported although the whole window was filled"); break; }
+			}
+		} else {
+			size_t nlen = flen > foff + FI.transfered ? flen : (FI.transfered ? foff + FI.transfered : flen);
+			struct stat st;
+			ssize_t got;
+			if (!faulted && FI.transfered != tr) { sim_violation("io-count", "file task: %zu of %zu byte(s) written", FI.transfered, tr); break; }
+			if (0 != fstat(fd, &st) || (size_t)st.st_size != nlen) { sim_violation("io-data", "file task: file is %lld byte(s) long after writing %zu at %zu (was %zu)", (long long)st.st_size, FI.transfered, foff, flen); break; }
+			got = pread(fd, fnow, nlen, 0);
+			if (got != (ssize_t)nlen) break;
+			for (size_t i = 0; i < nlen; i++) {
+				uint8_t want = (i >= foff && i < foff + FI.transfered) ? fpay(1000 + i - foff) : (i < flen ? 0xEE : 0);
+				if (fnow[i] != want) { sim_violation("io-data", "file task: file byte %zu is %02x, expected %02x (%zu written at offset %zu)", i, fnow[i], want, FI.transfered, foff); break; }
+			}
+		}
+	} while (0);
+	tp_task_destroy(task);
+	close(fd); sim_fd_forget(fd);
+}
+
 static void c16_exec(const op_t *op, int opidx) {
 	const char *k = op->it.kind;
-	(void)opidx;
-	if (0 == strcmp(k, "task")) op_task(&op->it);
+	if (0 == strcmp(k, "fileio")) op_fileio(&op->it, opidx);
+	else if (0 == strcmp(k, "task")) op_task(&op->it);
 	else if (0 == strcmp(k, "enable") || 0 == strcmp(k, "restart") || 0 == strcmp(k, "stop") || 0 == strcmp(k, "destroy")) op_ctl(&op->it, k);
 }
 
@@ -780,7 +869,7 @@ static void *c16_actor(void *arg) {
 		else if (0 == strcmp(k, "wait")) sim_sleep_ns((uint64_t)item_get(&op->it, "ns", 1000), "actor.wait");
 		else {
 			int slot = (int)item_get(&op->it, "t", 0) % MAX_TASK, thr;
-			thr = (0 == strcmp(k, "task")) ? (int)item_get(&op->it, "thr", 0) % PW->n : T[slot].thr;
+			thr = (0 == strcmp(k, "task") || 0 == strcmp(k, "fileio")) ? (int)item_get(&op->it, "thr", 0) % PW->n : T[slot].thr;
 			if (0 == strcmp(k, "task") && item_get(&op->it, "ext", 0)) c16_exec(op, i);   /* from this (non-pool) thread */
 			else
 			world_send_carrier(i, 0, thr);
@@ -906,6 +995,32 @@ static void c16_gen(plan_t *p, rng_t *r, int tier) {
 				item_set(&co->it, "dly", (long long)rng_range(r, 1000, 30000000));
 				item_set(&co->it, "newstart", rng_chance(r, 400));
 			}
+		}
+	}
+	if (rng_chance(r, 250)) {
+		/* a file task (pread/pwrite variant) on one of the pool threads, while the socket tasks are at work */
+		static const int sizes[] = { 16, 40, 64, 256, 300, 1024, 4096 };
+		size_t size = (size_t)sizes[rng_below(r, 7)], off = rng_chance(r, 500) ? (size_t)rng_below(r, size / 2 + 1) : 0, tr = rng_chance(r, 500) ? (size_t)rng_range(r, 1, (int64_t)(size - off)) : 0;
+		size_t flen = rng_chance(r, 100) ? 0 : (size_t)rng_range(r, 1, 2047);
+		int wr = rng_chance(r, 400);
+		op_t *op = plan_add_op(p, "fileio");
+		item_set(&op->it, "actor", 2);
+		item_set(&op->it, "thr", (long long)rng_below(r, (uint64_t)n));
+		item_set(&op->it, "dly", (long long)rng_range(r, 0, 20000000));
+		item_set(&op->it, "wr", wr);
+		item_set(&op->it, "flen", (long long)flen);
+		item_set(&op->it, "foff", (long long)(rng_chance(r, 300) ? 0 : rng_below(r, flen + 40)));
+		item_set(&op->it, "size", (long long)size);
+		item_set(&op->it, "off", (long long)off);
+		item_set(&op->it, "tr", (long long)tr);
+		item_set(&op->it, "flags", (!wr && rng_chance(r, 300)) ? TP_TASK_F_CB_AFTER_EVERY_READ : 0);
+		if (rng_chance(r, 150)) {
+			item_t *f = op_add_fault(op, wr ? "pwrite" : "pread");
+			if (f) { item_set(f, "nth", (long long)rng_range(r, 1, 2)); item_set(f, "err", rng_chance(r, 500) ? EIO : ENOSPC); }
+		}
+		if (rng_chance(r, 400)) {
+			item_t *f = op_add_fault(op, wr ? "pwrite.short" : "pread.short");
+			if (f) { item_set(f, "nth", (long long)rng_range(r, 1, 2)); item_set(f, "err", (long long)rng_range(r, 1, 700)); item_set(f, "count", (long long)rng_range(r, 1, 3)); }
 		}
 	}
 }
